@@ -507,3 +507,7 @@ CHECKS = [
     Check("group_changed", judge_group, cases=group_cases, exhaustive=True,
           rule="complete enumeration: groups of 1-3 members with output.changed absent/True/False, grouped by group_plots, then kept or set (never lowered from True) by a sequence mapped with MapGroup: the group's flag is 'any changed'."),
 ]
+
+
+from .. import covfuzz  # noqa
+CHECKS.append(covfuzz.check(CHECKS, "harness.props.c19", "make_filename", quick=3000, thorough=100000))
